@@ -51,13 +51,20 @@ type world struct {
 
 	m       *model
 	clients []*cClient
-	script  []*opSpec
-	stepNo  int
-	flights []*flight
-	issued  []*flight // every request of the case
-	labels  map[string]int
-	diags   map[string]int
-	evMain  map[string]int // model events before the final drain
+	// observer is a client of its own whose only job is to read the
+	// lock tables back through LOCKT (see scan.go).
+	observer *cClient
+	script   []*opSpec
+	stepNo   int
+	flights  []*flight
+	issued   []*flight // every request of the case
+	labels   map[string]int
+	diags    map[string]int
+	evMain   map[string]int // model events before the final drain
+	labMain  map[string]int // world labels before the final drain
+
+	lockProbes int
+	scanning   bool
 }
 
 func newWorld(rt *rapid.T, prof *profile, nClients int) *world {
@@ -65,15 +72,15 @@ func newWorld(rt *rapid.T, prof *profile, nClients int) *world {
 	w.nfs = virtual.NewNFSHandleAllocator(&seqRNG{salt: 0x1111})
 	setter := func(requested virtual.AttributesMask, attributes *virtual.Attributes) {}
 	symlinks := virtual.NewBaseSymlinkFactory(setter)
-	files := virtual.NewHandleAllocatingFileAllocator(
-		&countingAllocator{
-			base: virtual.NewPoolBackedFileAllocator(memPool{}, w.errlog, setter, virtual.NoNamedAttributesFactory),
-			reg:  w.reg,
-		}, w.nfs)
+	alloc := &countingAllocator{
+		base: virtual.NewPoolBackedFileAllocator(memPool{}, w.errlog, setter, virtual.NoNamedAttributesFactory),
+		reg:  w.reg,
+	}
+	files := virtual.NewHandleAllocatingFileAllocator(alloc, w.nfs)
 	w.root = virtual.NewInMemoryPrepopulatedDirectory(files, symlinks, w.errlog, w.nfs, sort.Sort, func(string) bool { return false }, w.clock, virtual.CaseSensitiveComponentNormalizer, setter, virtual.NoNamedAttributesFactory)
 	w.pool = nfsv4srv.NewOpenedFilesPool(w.nfs.ResolveHandle)
 	w.program = nfsv4srv.NewNFS40Program(
-		&parkingDirectory{Directory: w.root},
+		&parkingDirectory{Directory: w.root, alloc: alloc},
 		w.pool,
 		&seqRNG{salt: 0x2222},
 		nfsv4.Verifier4{1, 2, 3, 4, 5, 6, 7, 8},
@@ -88,7 +95,11 @@ func newWorld(rt *rapid.T, prof *profile, nClients int) *world {
 	w.root.VirtualGetAttributes(context.Background(), virtual.AttributesMaskFileHandle, &attrs)
 	w.m.rootFH = hex.EncodeToString(attrs.GetFileHandle())
 	for i := 0; i < nClients; i++ {
-		w.clients = append(w.clients, newClient(i))
+		c := newClient(i)
+		if rt != nil {
+			w.drawInitialSeqids(c)
+		}
+		w.clients = append(w.clients, c)
 	}
 	return w
 }
@@ -133,9 +144,15 @@ func (w *world) snap() snapshot {
 		fmt.Fprintf(&b, "leaf#%d opens=%v closes=%v io=%d; ", l.idx, o, c, io)
 	}
 	s.leaves = b.String()
-	var attrs virtual.Attributes
-	w.root.VirtualGetAttributes(context.Background(), virtual.AttributesMaskChangeID, &attrs)
-	s.dir = attrs.GetChangeID()
+	if free, known := virtual.VerifLockIsFree(w.root); known && !free {
+		// Leaked directory lock: asking for the change ID would hang.
+		// checkLocksFree reports it.
+		s.dir = ^uint64(0)
+	} else {
+		var attrs virtual.Attributes
+		w.root.VirtualGetAttributes(context.Background(), virtual.AttributesMaskChangeID, &attrs)
+		s.dir = attrs.GetChangeID()
+	}
 	if c, free := nfsv4srv.VerifStateCounts(w.program); free {
 		s.counts = fmtCounts(c)
 	} else {
@@ -196,6 +213,7 @@ func fmtStep(s *opSpec) string {
 	add("data", s.Data, s.Kind == kWrite)
 	add("size", s.Size, s.Kind == kSetattr || s.Kind == "advance")
 	add("park", s.Park, s.Park != "")
+	add("fault", s.Fault+"/"+s.FaultSt, s.Fault != "")
 	add("retx", s.Retx, s.Retx != 0)
 	add("note", s.Note, s.Note != "")
 	return fmt.Sprintf("%3d %-18s %s  => %s", s.N, s.Kind, strings.Join(parts, " "), out)
@@ -212,6 +230,10 @@ func (w *world) issue(c *cClient, op *opSpec) {
 	}
 
 	fl := &flight{op: op, ctl: newOpCtl(op.Park), done: make(chan *nfsv4.Compound4res, 1), client: c}
+	fl.ctl.fault, fl.ctl.faultSt = op.Fault, op.FaultSt
+	if op.Fault != "" {
+		w.label("fault_planned_" + op.Fault)
+	}
 	w.issued = append(w.issued, fl)
 	fl.sweepy = w.m.sweepWould()
 	fl.before = w.snap()
@@ -235,9 +257,30 @@ func (w *world) issue(c *cClient, op *opSpec) {
 	inf := &inflight{op: op, phase: "start"}
 	fl.inf = inf
 	w.observeInto(fl)
+	sweepDue := fl.sweepy
 	out := w.m.run(inf)
 	w.settle(fl, out)
 	w.checkQuiescent()
+	if w.prof.scanLocks && !w.scanning && out.blocked == "" {
+		reason := ""
+		switch op.Kind {
+		case kClose, kLocku, kReleaseLockowner:
+			reason = "after_" + op.Kind
+		case kSetclientidConfirm:
+			if c != w.observer {
+				reason = "after_" + op.Kind
+			}
+		default:
+			if sweepDue && c != w.observer {
+				reason = "after_lease_expiry"
+			}
+		}
+		if reason != "" {
+			w.scanning = true
+			w.scanLocks(reason, false)
+			w.scanning = false
+		}
+	}
 }
 
 // observed state of a flight after quiescence.
@@ -373,10 +416,16 @@ func (w *world) settle(fl *flight, out outcome) {
 			w.fail("C19", "step %d %s: retransmission of step %d got a reply that is not byte-equal to the first reply\n first: %x\n now:   %x", op.N, op.Kind, out.replay.step, out.replay.bytes, got)
 		}
 		w.label("replay_byte_equal")
-		if op.Kind == kOpen && out.replay.status == ok && len(res.Resarray) > len(fl.inf.pre)+1 {
-			// Diagnostic, not a verdict: the replayed OPEN does not
-			// re-establish the current file handle.
-			w.diags["GETFH after a replayed OPEN returns the handle the COMPOUND had before OPEN, not the opened file"]++
+		if op.Kind == kOpen && out.replay.status == ok && out.replay.next != nil && len(res.Resarray) > len(fl.inf.pre)+1 {
+			// The retransmitted COMPOUND is "PUTFH; OPEN; GETFH": the
+			// reply the server gave the first time carried the handle
+			// of the opened file in GETFH. A replayed OPEN has to
+			// re-establish the current file handle for that (finding
+			// C19/nfs40-replayed-open-loses-current-filehandle).
+			if gotNext := encode(res.Resarray[len(fl.inf.pre)+1]); !bytes.Equal(gotNext, out.replay.next) {
+				w.fail("C19", "step %d %s: retransmission of step %d: the OPEN was replayed from the cache, but the GETFH that follows it did not return what it returned the first time (the replay did not make the opened file the current file handle)\n first: %x\n now:   %x", op.N, op.Kind, out.replay.step, out.replay.next, gotNext)
+			}
+			w.label("replayed_open_getfh_equal")
 		}
 	}
 	for _, c := range out.checks {
@@ -445,6 +494,13 @@ func (w *world) advance(d time.Duration) {
 	w.m.now += d
 	w.label("advance")
 	w.checkQuiescent()
+	if w.prof.scanLocks && !w.scanning && w.m.sweepWould() {
+		// A lease ran out: the next call reclaims the client's state,
+		// and with it exactly that client's locks.
+		w.scanning = true
+		w.scanLocks("after_lease_expiry", false)
+		w.scanning = false
+	}
 }
 
 // ---------------------------------------------------------------------
@@ -452,20 +508,6 @@ func (w *world) advance(d time.Duration) {
 // ---------------------------------------------------------------------
 
 func (w *world) checkQuiescent() {
-	if w.prof.property != "C18" {
-		// The accounting oracles belong to C18 and are decided by its
-		// own test function; here they must not end a case before the
-		// oracle of this property had its say.
-		defer func() {
-			if r := recover(); r != nil {
-				if v, isV := r.(violation); isV && v.class == "C18" {
-					w.label("c18_accounting_mismatch_left_to_the_C18_test")
-					return
-				}
-				panic(r)
-			}
-		}()
-	}
 	leaves := w.reg.all()
 	if len(leaves) != len(w.m.leaves) {
 		w.fail("C18", "the file allocator created %d files, the replies imply %d", len(leaves), len(w.m.leaves))
@@ -491,25 +533,53 @@ func (w *world) checkQuiescent() {
 			}
 		}
 	}
-	counts, free := nfsv4srv.VerifStateCounts(w.program)
-	if !free {
-		w.fail("C18", "the program lock is held at quiescence")
-	}
+	w.checkLocksFree()
+	counts, _ := nfsv4srv.VerifStateCounts(w.program)
 	if got, want := fmtCounts(counts), fmtCounts(w.m.stateCounts()); got != want {
 		w.fail("C18", "server records: %s\n            the replies imply: %s", got, want)
 	}
-	n, free := w.pool.VerifOpenedCount()
-	if !free {
-		w.fail("C18", "the opened-files pool lock is held at quiescence")
-	}
+	n, _ := w.pool.VerifOpenedCount()
 	if want := w.m.openedFiles(); n != want {
 		w.fail("C18", "opened-files pool tracks %d files, the replies imply %d", n, want)
 	}
+	if got := w.errlog.count(); got != w.m.loggedErrors {
+		w.fail("C18", "the file system logged %d errors (%v), the injected faults imply %d", got, w.errlog.all(), w.m.loggedErrors)
+	}
+}
+
+// checkLocksFree is the C14 oracle of this simulator: whenever every
+// request has returned or is parked inside one of the fakes (which park
+// outside of every lock of the code under test), each lock of the NFS
+// server, the opened-files pool (also the per-file lock of its lock
+// tables), the handle allocator, the root directory and every file must
+// be free. A lock that is still held was leaked by a request that has
+// returned, whatever its outcome.
+func (w *world) checkLocksFree() {
+	w.lockProbes++
+	if len(w.flights) > 0 {
+		w.labels["locks_probed_while_requests_parked"]++
+	}
+	if _, free := nfsv4srv.VerifStateCounts(w.program); !free {
+		w.fail("C14", "the program lock is held at quiescence (requests in flight: %d, all parked outside the server's locks)", len(w.flights))
+	}
+	if _, free := w.pool.VerifOpenedCount(); !free {
+		w.fail("C14", "the opened-files pool lock is held at quiescence")
+	}
+	if _, free := w.pool.VerifUseCount(); !free {
+		w.fail("C14", "the lock of an opened file's byte-range lock table is held at quiescence")
+	}
 	if !w.nfs.VerifNFSHandlePoolLockIsFree() {
-		w.fail("C18", "the NFS handle pool lock is held at quiescence")
+		w.fail("C14", "the NFS handle pool lock is held at quiescence")
 	}
 	if free, known := virtual.VerifLockIsFree(w.root); known && !free {
-		w.fail("C18", "the root directory lock is held at quiescence")
+		w.fail("C14", "the root directory lock is held at quiescence")
+	}
+	for _, l := range w.reg.all() {
+		if free, known := virtual.VerifLeafLockIsFree(l.raw); known && !free {
+			w.fail("C14", "the lock of file leaf#%d is held at quiescence", l.idx)
+		} else if !known {
+			w.fail("C14", "harness: the lock of leaf#%d (%T) cannot be probed", l.idx, l.raw)
+		}
 	}
 }
 
@@ -529,9 +599,12 @@ func (w *world) finish() {
 		}
 		w.release(fl)
 	}
+	w.scanLocks("final_before_expiry", true)
+	w.scanning = true // the observer must expire along with everybody else
 	w.advance(leaseTime + time.Second)
 	ghost := newClient(99)
 	w.issue(ghost, &opSpec{Kind: kRenew, ClientID: 0xdeadbeef, Note: "final_probe"})
+	w.scanning = false
 	counts, _ := nfsv4srv.VerifStateCounts(w.program)
 	if s := fmtCounts(counts); s != "" {
 		w.fail("C18", "after all leases expired and one more call the server still retains: %s", s)
@@ -552,6 +625,8 @@ func (w *world) finish() {
 		}
 		w.issue(ghost, &opSpec{Kind: kPutfh, FH: l.fh, Note: "final_probe"})
 	}
+	// No file is open any more: no lock may be left on any of them.
+	w.scanLocks("final_after_expiry", true)
 }
 
 // unparkAll lets every parked request go (repeatedly: a request that
